@@ -14,7 +14,8 @@ depends on the LINE that led to it.  This file sets up the simulation by `mm Rep
 * `REntryOK`, `RTTOK`  – table invariant: every entry belongs to a node `(k, Lb, p)` with `k < D`, is keyed by `hash p`, has draft
                          `≤ D − k` and tells the truth about `mm repGame draft (rnode Lb p k)` — the value ON THAT LINE;
 * `RHashInj b0 T D`    – EXPLICIT HYPOTHESIS replacing `SearchSim.HashInj`: a stored node (`k' < D`) and a probed node (`k ≤ D`) with
-                         the same hash stand at the same ply, show the same position AND were reached over lines with the same keys.
+                         the same hash stand at the same ply, show the same position AND were reached over lines with the same keys
+                         inside the window of the repetition test (`mm_rep_window`: `mm repGame` sees only the last `halfmove` keys).
                          For `D ≤ 2` this follows from `NoCollision` (`Proofs/SearchRepDeepHash.lean`): nodes at plies 0 and 1 have
                          only one line.  For `D ≥ 3` it excludes exactly the transpositions (graph-history interaction);
 * `RHyp`               – the bundle of explicit hypotheses: a legal game line, clock budget, no 16-bit wrap, non-zero hashes below
@@ -289,6 +290,150 @@ theorem mm_rnode_congr (d : Nat) (Lb : List Board) {p p' : Board} (k : Nat) (h :
     mm repGame d (rnode Lb p k) = mm repGame d (rnode Lb p' k) :=
   mm_rep_congr d p p' [] k _ h
 
+/-! ## the specification value sees the line only inside the window -/
+
+theorem isRepetition_window (b : Board) (o : List String) (k : Nat) {bf bf' : List Key}
+    (h : bf.take b.halfmove = bf'.take b.halfmove) : isRepetition ⟨b, o, k, bf⟩ = isRepetition ⟨b, o, k, bf'⟩ := by
+  unfold isRepetition RepSpec.occurrences
+  simp only
+  rw [h]
+
+/-- **`mm repGame` depends on the line only through its last `halfmove` keys**: the positions before the last capture or pawn
+move are never compared with anything again, at any depth -/
+theorem mm_rep_window (d : Nat) : ∀ (b : Board) (o : List String) (k : Nat) (bf bf' : List Key),
+    bf.take b.halfmove = bf'.take b.halfmove → mm repGame d ⟨b, o, k, bf⟩ = mm repGame d ⟨b, o, k, bf'⟩ := by
+  have hmoves : ∀ (b : Board) (o : List String) (k : Nat) (bf bf' : List Key), bf.take b.halfmove = bf'.take b.halfmove →
+      repGame.moves ⟨b, o, k, bf⟩ = repGame.moves ⟨b, o, k, bf'⟩ := by
+    intro b o k bf bf' h
+    show (if isRepetition ⟨b, o, k, bf⟩ then [] else rootMoves b o) = (if isRepetition ⟨b, o, k, bf'⟩ then [] else rootMoves b o)
+    rw [isRepetition_window b o k h]
+  have hterm : ∀ (b : Board) (o : List String) (k : Nat) (bf bf' : List Key), bf.take b.halfmove = bf'.take b.halfmove →
+      repGame.term ⟨b, o, k, bf⟩ = repGame.term ⟨b, o, k, bf'⟩ := by
+    intro b o k bf bf' h
+    show (if isRepetition ⟨b, o, k, bf⟩ then RepSpec.repetitionValue k else evalFor b b.turn false) =
+      (if isRepetition ⟨b, o, k, bf'⟩ then RepSpec.repetitionValue k else evalFor b b.turn false)
+    rw [isRepetition_window b o k h]
+  induction d with
+  | zero =>
+    intro b o k bf bf' h
+    simp only [mm]
+    rw [hmoves b o k bf bf' h, hterm b o k bf bf' h,
+      show repGame.leafExact ⟨b, o, k, bf⟩ = game.leafExact (b, o) from RepSpec.leafExact_board _ ⟨b, o, k, bf⟩ o,
+      show repGame.leafExact ⟨b, o, k, bf'⟩ = game.leafExact (b, o) from RepSpec.leafExact_board _ ⟨b, o, k, bf'⟩ o]
+  | succ d ih =>
+    intro b o k bf bf' h
+    simp only [mm]
+    rw [hmoves b o k bf bf' h, hterm b o k bf bf' h]
+    split
+    · rfl
+    · unfold Game.children
+      rw [hmoves b o k bf bf' h, RepSpec.mmFold_map, RepSpec.mmFold_map]
+      apply mmFold_congr
+      intro m _
+      show mm repGame d ⟨make b m, [], k + 1, key b :: bf⟩ = mm repGame d ⟨make b m, [], k + 1, key b :: bf'⟩
+      apply ih
+      rw [make_halfmove]
+      split
+      · rfl
+      · rw [List.take_succ_cons, List.take_succ_cons, h]
+
+/-! ## which keys of the line a node really looks at -/
+
+/-- the count of a node looks only at the keys at even distance, and only at whether they are the node's own key -/
+theorem occ_congr (b : Board) (o : List String) (k : Nat) (bf bf' : List Key) (hlen : bf.length = bf'.length)
+    (h : ∀ i, (i + 1) % 2 = 0 → (bf[i]? == some (key b)) = (bf'[i]? == some (key b))) :
+    RepSpec.occurrences ⟨b, o, k, bf⟩ = RepSpec.occurrences ⟨b, o, k, bf'⟩ := by
+  unfold RepSpec.occurrences
+  simp only
+  have hl : (bf.take b.halfmove).length = (bf'.take b.halfmove).length := by
+    rw [List.length_take, List.length_take, hlen]
+  rw [hl]
+  congr 2
+  apply List.filter_congr
+  intro i hi
+  have hi' : i < (bf'.take b.halfmove).length := List.mem_range.mp hi
+  have hih : i < b.halfmove := by rw [List.length_take] at hi'; omega
+  rw [List.getElem?_take_of_lt hih, List.getElem?_take_of_lt hih]
+  by_cases hp : (i + 1) % 2 = 0
+  · rw [h i hp]
+  · have : ((i + 1) % 2 == 0) = false := by simpa using hp
+    rw [this, Bool.false_and, Bool.false_and]
+
+/-- the key of the parent (distance 1: the other side to move) is never looked at -/
+theorem occ_head (b : Board) (o : List String) (k : Nat) (x y : Key) (r : List Key) :
+    RepSpec.occurrences ⟨b, o, k, x :: r⟩ = RepSpec.occurrences ⟨b, o, k, y :: r⟩ := by
+  apply occ_congr b o k (x :: r) (y :: r) rfl
+  intro i hi
+  cases i with
+  | zero => omega
+  | succ j => rw [List.getElem?_cons_succ, List.getElem?_cons_succ]
+
+/-- a key at distance 2 that is not the node's key may be replaced by another such key -/
+theorem occ_second (b : Board) (o : List String) (k : Nat) (z x y : Key) (r : List Key) (hx : x ≠ key b) (hy : y ≠ key b) :
+    RepSpec.occurrences ⟨b, o, k, z :: x :: r⟩ = RepSpec.occurrences ⟨b, o, k, z :: y :: r⟩ := by
+  apply occ_congr b o k (z :: x :: r) (z :: y :: r) rfl
+  intro i hi
+  cases i with
+  | zero => omega
+  | succ j =>
+    cases j with
+    | zero =>
+      simp only [List.getElem?_cons_succ, List.getElem?_cons_zero]
+      have e1 : (some x == some (key b)) = false := by simpa using hx
+      have e2 : (some y == some (key b)) = false := by simpa using hy
+      rw [e1, e2]
+    | succ j => simp only [List.getElem?_cons_succ]
+
+theorem isRepetition_of_occ (b : Board) (o : List String) (k : Nat) {bf bf' : List Key}
+    (h : RepSpec.occurrences ⟨b, o, k, bf⟩ = RepSpec.occurrences ⟨b, o, k, bf'⟩) :
+    isRepetition ⟨b, o, k, bf⟩ = isRepetition ⟨b, o, k, bf'⟩ := by
+  unfold isRepetition
+  rw [h]
+
+/-- a horizon node depends on its line through the rule only -/
+theorem mm_zero_line (b : Board) (o : List String) (k : Nat) {bf bf' : List Key}
+    (h : isRepetition ⟨b, o, k, bf⟩ = isRepetition ⟨b, o, k, bf'⟩) :
+    mm repGame 0 ⟨b, o, k, bf⟩ = mm repGame 0 ⟨b, o, k, bf'⟩ := by
+  have hmoves : repGame.moves ⟨b, o, k, bf⟩ = repGame.moves ⟨b, o, k, bf'⟩ := by
+    show (if isRepetition ⟨b, o, k, bf⟩ then [] else rootMoves b o) = (if isRepetition ⟨b, o, k, bf'⟩ then [] else rootMoves b o)
+    rw [h]
+  have hterm : repGame.term ⟨b, o, k, bf⟩ = repGame.term ⟨b, o, k, bf'⟩ := by
+    show (if isRepetition ⟨b, o, k, bf⟩ then RepSpec.repetitionValue k else evalFor b b.turn false) =
+      (if isRepetition ⟨b, o, k, bf'⟩ then RepSpec.repetitionValue k else evalFor b b.turn false)
+    rw [h]
+  simp only [mm]
+  rw [hmoves, hterm,
+    show repGame.leafExact ⟨b, o, k, bf⟩ = game.leafExact (b, o) from RepSpec.leafExact_board _ ⟨b, o, k, bf⟩ o,
+    show repGame.leafExact ⟨b, o, k, bf'⟩ = game.leafExact (b, o) from RepSpec.leafExact_board _ ⟨b, o, k, bf'⟩ o]
+
+/-- an interior node: the rule at the node, and its children on the extended lines -/
+theorem mm_succ_line (d : Nat) (b : Board) (o : List String) (k : Nat) {bf bf' : List Key}
+    (h : isRepetition ⟨b, o, k, bf⟩ = isRepetition ⟨b, o, k, bf'⟩)
+    (hc : ∀ m ∈ rootMoves b o, mm repGame d ⟨make b m, [], k + 1, key b :: bf⟩ = mm repGame d ⟨make b m, [], k + 1, key b :: bf'⟩) :
+    mm repGame (d + 1) ⟨b, o, k, bf⟩ = mm repGame (d + 1) ⟨b, o, k, bf'⟩ := by
+  have hmoves : repGame.moves ⟨b, o, k, bf⟩ = repGame.moves ⟨b, o, k, bf'⟩ := by
+    show (if isRepetition ⟨b, o, k, bf⟩ then [] else rootMoves b o) = (if isRepetition ⟨b, o, k, bf'⟩ then [] else rootMoves b o)
+    rw [h]
+  have hterm : repGame.term ⟨b, o, k, bf⟩ = repGame.term ⟨b, o, k, bf'⟩ := by
+    show (if isRepetition ⟨b, o, k, bf⟩ then RepSpec.repetitionValue k else evalFor b b.turn false) =
+      (if isRepetition ⟨b, o, k, bf'⟩ then RepSpec.repetitionValue k else evalFor b b.turn false)
+    rw [h]
+  simp only [mm]
+  rw [hmoves, hterm]
+  split
+  · rfl
+  · unfold Game.children
+    rw [hmoves, RepSpec.mmFold_map, RepSpec.mmFold_map]
+    apply mmFold_congr
+    intro m hm
+    have hm' : m ∈ rootMoves b o := by
+      have : repGame.moves ⟨b, o, k, bf'⟩ = if isRepetition ⟨b, o, k, bf'⟩ then [] else rootMoves b o := rfl
+      rw [this] at hm
+      split at hm
+      · cases hm
+      · exact hm
+    exact hc m hm'
+
 /-- the node below the move `m` -/
 theorem rnode_child (Lb : List Board) (p : Board) (k : Nat) (m : Move) :
     ({ board := make p m, only := [], ply := k + 1, before := key p :: (rnode Lb p k).before } : RPos) =
@@ -311,13 +456,32 @@ def RTTOK (b0 : Board) (T : List Board) (D : Nat) (tt : Std.HashMap UInt64 TtEnt
     ∃ k Lb p, k < D ∧ RNode b0 T k Lb p ∧ Zobrist.hash p = h ∧ e.depth + k ≤ D ∧ REntryOK (rnode Lb p k) e
 
 /-- **RHashInj** (explicit hypothesis, not an axiom): a node at which the search stores (`k' < D`) and a node at which it probes
-(`k ≤ D`) that have the same hash stand at the same ply, show the same position and have lines with the same keys -/
+(`k ≤ D`) that have the same hash stand at the same ply, show the same position and have the same specification values for every
+draft the table can hold there — e.g. because their lines have the same keys INSIDE THE WINDOW of the repetition test (the last
+`halfmove` positions: `rhashInj_of_window`, the executable sufficient condition), or because the keys in which the lines differ are
+never compared with anything (`Proofs/SearchRepDeepHash.lean`: depth ≤ 3) -/
 def RHashInj (b0 : Board) (T : List Board) (D : Nat) : Prop :=
   ∀ (k' k : Nat) (Lb' Lb : List Board) (p' p : Board), k' < D → k ≤ D → RNode b0 T k' Lb' p' → RNode b0 T k Lb p →
-    Zobrist.hash p' = Zobrist.hash p → k' = k ∧ vis p' = vis p ∧ Lb'.map key = Lb.map key
+    Zobrist.hash p' = Zobrist.hash p →
+      k' = k ∧ vis p' = vis p ∧ ∀ d, d + k ≤ D → mm repGame d (rnode Lb' p' k) = mm repGame d (rnode Lb p k)
 
 theorem RHashInj.mono {b0 : Board} {T : List Board} {D D' : Nat} (h : RHashInj b0 T D) (hle : D' ≤ D) : RHashInj b0 T D' :=
-  fun k' k Lb' Lb p' p h1 h2 => h k' k Lb' Lb p' p (by omega) (by omega)
+  fun k' k Lb' Lb p' p h1 h2 hn' hn he =>
+    let r := h k' k Lb' Lb p' p (by omega) (by omega) hn' hn he
+    ⟨r.1, r.2.1, fun d hd => r.2.2 d (by omega)⟩
+
+/-- the sufficient condition that can be evaluated: same ply, same visible position, same keys inside the window -/
+theorem rhashInj_of_window {b0 : Board} {T : List Board} {D : Nat}
+    (h : ∀ (k' k : Nat) (Lb' Lb : List Board) (p' p : Board), k' < D → k ≤ D → RNode b0 T k' Lb' p' → RNode b0 T k Lb p →
+      Zobrist.hash p' = Zobrist.hash p →
+        k' = k ∧ vis p' = vis p ∧ (Lb'.reverse.map key).take p'.halfmove = (Lb.reverse.map key).take p.halfmove) :
+    RHashInj b0 T D := by
+  intro k' k Lb' Lb p' p hk' hk hn' hn he
+  obtain ⟨rfl, hv, hkeys⟩ := h k' k Lb' Lb p' p hk' hk hn' hn he
+  refine ⟨rfl, hv, fun d _ => ?_⟩
+  unfold rnode
+  rw [mm_rep_window d p' [] k' _ (Lb.reverse.map key) (by rw [hkeys, halfmove_congr hv])]
+  exact mm_rep_congr d p' p [] k' _ hv
 
 theorem rttok_empty (b0 : Board) (T : List Board) (D : Nat) : RTTOK b0 T D {} := by
   intro h e he
@@ -345,13 +509,11 @@ theorem rttok_entry {b0 : Board} {T : List Board} {D : Nat} {tt : Std.HashMap UI
     (hinj : RHashInj b0 T D) {k : Nat} {Lb : List Board} {p : Board} (hk : k ≤ D) (hr : RNode b0 T k Lb p) {e : TtEntry}
     (he : tt.get? (Zobrist.hash p) = some e) : k < D ∧ e.depth + k ≤ D ∧ REntryOK (rnode Lb p k) e := by
   obtain ⟨k', Lb', p', h1, h2, h3, h4, h5⟩ := h _ e he
-  obtain ⟨rfl, hv, hkeys⟩ := hinj k' k Lb' Lb p' p h1 hk h2 hr h3
+  obtain ⟨rfl, hv, hvals⟩ := hinj k' k Lb' Lb p' p h1 hk h2 hr h3
   refine ⟨h1, h4, h5.1, ?_⟩
-  have e1 : rnode Lb' p' k' = { board := p', only := [], ply := k', before := Lb.reverse.map key } := by
-    unfold rnode
-    rw [List.map_reverse, List.map_reverse, hkeys]
+  have e1 : mm repGame e.depth (rnode Lb' p' k') = mm repGame e.depth (rnode Lb p k') := hvals e.depth h4
   have := h5.2
-  rw [e1, mm_rep_congr e.depth p' p [] k' _ hv] at this
+  rw [e1] at this
   exact this
 
 /-! ## the explicit hypotheses -/
